@@ -562,6 +562,8 @@ class ScheduleMonitor:
                         self.check_markers(seg, markers, exp, k0)
         for n, j in enumerate(idx):
             k = snaps[j].k
+            if n == len(idx) - 1 and getattr(run, "incomplete_last_iteration", False):
+                break  # the routine raised / was aborted inside this iteration: its update schedule is not complete
             end = idx[n + 1] if n + 1 < len(idx) else len(snaps)
             # snapshots j .. end (exclusive) belong to iteration k; the closing point is snaps[end] or the return snapshot
             seg = snaps[j:end + 1] if end < len(snaps) else snaps[j:end]
